@@ -180,6 +180,14 @@ def gen_c13(tier, seed):
     for i in range(n):
         steps = history_steps(rng, rng.choice([3, 5, 8]), observe=None, validate=False, nmax=rng.choice([4, 8, 14]), pre_epoch=True)
         scens.append({"id": sid("C13", "h", i), "props": ["C13"], "mode": "clean", "tags": ["history"], "steps": steps})
+    # "after any sequence of operations": also operations that met storage faults
+    for i in range(20 if tier == "quick" else 300):
+        o = rng.choice(C04_OPTS)
+        t1 = with_dups(rng, random_tree(rng, nmax=rng.choice([4, 7]), pre_epoch=False, maxlen=6, symlinks=False, depth=2))
+        steps = [{"op": "tree", "tree": t1}, bk(o, fail_p=rng.choice([0.05, 0.12]), fail_seed=seed * 31 + i, fail_verbs=["write", "create_dir"])]
+        if rng.random() < 0.5:
+            steps += [bk(o)]
+        scens.append({"id": sid("C13", "flt", i), "props": ["C13"], "mode": "fault", "tags": ["faults"], "steps": steps})
     # hunk boundaries: trees with exactly k*H, k*H+1 entries
     for j, H in enumerate([1, 2, 3]):
         for nfiles in range(0, 8):
@@ -551,6 +559,8 @@ def apath_strings(tier, rng):
     component alphabet (the same set MC_Apath.tla quantifies over), plus ill-formed strings."""
     comps = APATH_COMPS_Q
     valid = ["/"] + ["/" + a for a in comps] + ["/" + a + "/" + b for a in comps for b in comps]
+    P = ["a", "a.b", "a-", "a b", "ab"]
+    valid += ["/" + a + "/" + b + "/" + c for a in P for b in P for c in P]
     if tier != "quick":
         valid += ["/" + a + "/" + b + "/" + c for a in APATH_COMPS_T for b in APATH_COMPS_T for c in APATH_COMPS_T]
         valid += ["/a/b/c/d", "/a/b/c/é", "/é/é/é/é", "/ab/a/b/ " ]
@@ -582,8 +592,27 @@ def gen_c11(tier, seed):
     cfg = "MC_Apath_quick.cfg" if tier == "quick" else "MC_Apath_thorough.cfg"
     r = cvlib.run_tlc_model("MC_Apath.tla", cfg, timeout=3000)
     mcs.append(("MC_Apath.tla", cfg, r))
+    r2 = cvlib.run_tlc_model("MC_Apath.tla", "MC_Apath_prefix.cfg", timeout=1200)
+    mcs.append(("MC_Apath.tla", "MC_Apath_prefix.cfg", r2))
     scens = [apath_table_scenario("C11", tier, rng)]
     names = [n for n in ORDER_NAMES if "/" not in n]
+    # directed: sibling directories whose names extend one another with a byte below '/', each with nested content
+    for i in range(12 if tier == "quick" else 100):
+        sibs = rng.sample(["a", "a.b", "a-", "a b", "ab", "a-b", "a+", "a,"], rng.randrange(2, 5))
+        t = [node("/", "Dir")]
+        for sname in sibs:
+            t.append(node("/" + sname, "Dir"))
+            for child in rng.sample(["b", "x", "-", "a.b"], rng.randrange(1, 3)):
+                if rng.random() < 0.6:
+                    t.append(node(f"/{sname}/{child}", "Dir"))
+                    t.append(node(f"/{sname}/{child}/{rng.choice(['x', 'y', '0'])}", "File", b"q"))
+                else:
+                    t.append(node(f"/{sname}/{child}", "File", b"r"))
+        o = {"H": rng.choice([1, 2, 3, 1000]), "M": 1000, "S": 1000}
+        t2 = mutate_tree(rng, t, maxlen=3, nmut=1)
+        scens.append({"id": sid("C11", "sib", i), "props": ["C11"], "mode": "clean", "tags": ["walk", "prefix-siblings"],
+                      "steps": [{"op": "tree", "tree": t}, {"op": "walk"}, bk(o), {"op": "list", "band": 0},
+                                {"op": "tree", "tree": t2}, {"op": "walk"}, bk(o), {"op": "restore", "band": 1}]})
     n = 80 if tier == "quick" else 1000
     for i in range(n):
         t = random_tree(rng, nmax=rng.choice([5, 9, 14, 20]), depth=4, names=names, pre_epoch=False, maxlen=4)
@@ -632,6 +661,128 @@ def gen_c12(tier, seed):
             for d in dirs[:3]:
                 steps.append({"op": "restore", "band": 1, "subtree": d})
         scens.append({"id": sid("C12", "sub", i), "props": ["C12"], "mode": "clean", "tags": ["subtree"], "steps": steps})
+    return scens, mcs
+
+
+# ------------------------------------------------------------------------------------------
+# C15 exclusions, C16 restore containment, C17 determinism, C18 diff
+
+EXCL_NAMES = ["a", "ab", "b", "tmp", "cache", "x.o", "y.o", "é", "éa", "d", "e", ".h", "A"]
+EXCL_PATTERNS = ["a", "/a", "ab", "*.o", "/d/*.o", "tmp", "/tmp", "**/cache", "d/e", "/d/e", "?", "/?", "[ab]", "/d/[!a]*", "é", "é*",
+                 "/é", "*", "/*/*", "a*", "**/a", "/d/**", "d", "/d", "e", "x.?", "*b", ".h", "/A/a", "A"]
+
+
+@check("C15", "model_checking", "TLA+ spec (Reader!Excluded over an abstract match relation; MC_Exclude proves walk-pruning = per-entry filtering for all trees x all matchers) + real backup/list/restore with exclusions judged by TLC using match facts from globset")
+def gen_c15(tier, seed):
+    rng = random.Random(seed * 1000 + 15)
+    mcs = []
+    r = cvlib.run_tlc_model("MC_Exclude.tla", "MC_Exclude.cfg", timeout=600)
+    mcs.append(("MC_Exclude.tla", "MC_Exclude.cfg", r))
+    scens = []
+    n = 100 if tier == "quick" else 1500
+    for i in range(n):
+        t = random_tree(rng, nmax=rng.choice([6, 10, 16]), depth=4, names=EXCL_NAMES, pre_epoch=False, maxlen=4)
+        pats = rng.sample(EXCL_PATTERNS, rng.randrange(1, 4))
+        # a pattern naming an existing directory with children, anchored or not
+        dirs = [path_str(nd["p"]) for nd in t if nd["p"] and nd["k"] == "Dir"]
+        if dirs and rng.random() < 0.6:
+            d = rng.choice(dirs)
+            pats.append(rng.choice([d, d.split("/")[-1], d + "/*"]))
+        o = {"H": rng.choice([1, 2, 3, 1000]), "M": 1000, "S": 1000}
+        steps = [{"op": "tree", "tree": t}, {"op": "walk", "excl": pats},
+                 bk(o, excl=pats), {"op": "list", "band": 0}, {"op": "restore", "band": 0},
+                 bk(o), {"op": "list", "band": 1, "excl": pats}, {"op": "restore", "band": 1, "excl": pats}]
+        if dirs and rng.random() < 0.3:
+            steps.append({"op": "list", "band": 1, "excl": pats, "subtree": rng.choice(dirs)})
+        scens.append({"id": sid("C15", "x", i), "props": ["C15"], "mode": "clean", "tags": ["exclude"], "steps": steps})
+    return scens, mcs
+
+
+OUTSIDE = [node("/", "Dir", mode=0o755), node("/sentinel_file", "File", b"do not touch", mt=(1500000000, 7), mode=0o640, u="root", g="root"),
+           node("/sentinel_dir", "Dir", mt=(1500000001, 0), mode=0o750), node("/sentinel_dir/inner", "File", b"inner", mt=(1500000002, 0), mode=0o600),
+           node("/sentinel_link", "Symlink", target="sentinel_file", mt=(1500000003, 0))]
+LINK_TARGETS = ["@OUTSIDE@/sentinel_file", "@OUTSIDE@/sentinel_dir", "@OUTSIDE@/sentinel_dir/inner", "@OUTSIDE@", "..", "../outside/sentinel_file",
+                "../outside/sentinel_dir", "../../outside/sentinel_file", "../outside/sentinel_link", "a", "d", ".", "/", "/etc/passwd", "dangling", "../outside"]
+
+
+@check("C16", "exploration", "TLA+ trace validation of real restores in a sandbox whose surroundings are watched (recursive lstat/content digest before and after); destination-refusal clause judged by TLC")
+def gen_c16(tier, seed):
+    rng = random.Random(seed * 1000 + 16)
+    scens = []
+    n = 80 if tier == "quick" else 1200
+    for i in range(n):
+        t = random_tree(rng, nmax=rng.choice([4, 7, 10]), depth=3, pre_epoch=False, maxlen=4, symlinks=False, names=["a", "b", "d", "e", "l", "m"])
+        dirs = [nd for nd in t if nd["k"] == "Dir"]
+        used = {path_str(nd["p"]) for nd in t}
+        for j in range(rng.randrange(1, 5)):
+            parent = rng.choice(dirs)
+            name = rng.choice(["l", "m", "ln%d" % j, "z"])
+            p = parent["p"] + [list(name.encode())]
+            if path_str(p) in used:
+                continue
+            used.add(path_str(p))
+            u, g = rng.choice(cvlib.OWNERS)
+            t.append(node(path_str(p), "Symlink", target=rng.choice(LINK_TARGETS), mt=rng.choice(cvlib.MTIMES[:3]), u=u, g=g))
+        o = rand_opts(rng)
+        steps = [{"op": "outside", "tree": OUTSIDE}, {"op": "tree", "tree": t}, bk(o)]
+        dest = rng.choice(["fresh", "fresh", "absent", "nonempty"])
+        steps.append({"op": "restore", "band": 0, "dest": dest})
+        if rng.random() < 0.4:
+            steps.append({"op": "restore", "band": 0, "dest": "nonempty", "overwrite": False})
+        if rng.random() < 0.4:
+            ds = [path_str(nd["p"]) for nd in t if nd["p"] and nd["k"] == "Dir"]
+            if ds:
+                steps.append({"op": "restore", "band": 0, "subtree": rng.choice(ds)})
+        if rng.random() < 0.3:
+            steps.append({"op": "restore", "band": 0, "excl": [rng.choice(["a", "l", "/d", "*"])]})
+        scens.append({"id": sid("C16", "s", i), "props": ["C16"], "mode": "clean", "tags": ["sandbox"], "steps": steps})
+    return scens
+
+
+@check("C17", "exploration", "TLA+ trace validation of two replays of the same history under different runtime flavours; byte digests compared by the harness, decoded archive states compared by TLC")
+def gen_c17(tier, seed):
+    rng = random.Random(seed * 1000 + 17)
+    scens = []
+    n = 40 if tier == "quick" else 500
+    # "-nodrain": the runtime is shut down as soon as the operation returns, as a command-line
+    # program does; whatever the operation left to a spawned task may or may not happen
+    flavors = ["ct", "mt1", "mt2", "mt8", "ct-nodrain", "mt2-nodrain"]
+    for i in range(n):
+        hist = history_steps(rng, rng.choice([3, 5, 8]), observe=None, validate=False, check_each=False)
+        f1, f2 = rng.sample(flavors, 2)
+        if i % 2 == 0:
+            f1, f2 = rng.choice(["ct", "mt2", "mt8"]), rng.choice(["ct-nodrain", "mt2-nodrain"])
+        steps = [{"op": "new_archive", "rt": f1}] + hist + [{"op": "archive_digest"}, {"op": "new_archive", "rt": f2}] + hist + [{"op": "archive_digest"}]
+        if tier != "quick":
+            f3 = rng.choice(flavors)
+            steps += [{"op": "new_archive", "rt": f3}] + hist + [{"op": "archive_digest"}]
+        scens.append({"id": sid("C17", "r", i), "props": ["C17"], "mode": "clean", "tags": ["replay", f1, f2], "steps": steps})
+    return scens
+
+
+@check("C18", "model_checking", "TLA+ spec (Diff.tla: set-theoretic difference; MC_Diff proves the lock-step merge equals it for all bounded tree pairs) + real diff() and backup change callbacks compared with the spec by TLC")
+def gen_c18(tier, seed):
+    rng = random.Random(seed * 1000 + 18)
+    mcs = []
+    cfg = "MC_Diff.cfg" if tier == "quick" else "MC_Diff_thorough.cfg"
+    r = cvlib.run_tlc_model("MC_Diff.tla", cfg, timeout=1800)
+    mcs.append(("MC_Diff.tla", cfg, r))
+    scens = []
+    n = 100 if tier == "quick" else 1500
+    for i in range(n):
+        t = random_tree(rng, nmax=rng.choice([4, 8, 12]), depth=3, pre_epoch=False, maxlen=5, owners=rng.random() < 0.3,
+                        names=["a", "ab", "a.b", "b", "-", "é", "z", "d"])
+        o = rand_opts(rng)
+        steps = [{"op": "tree", "tree": t}, bk(o), {"op": "diff", "band": -2, "include_unchanged": False},
+                 {"op": "diff", "band": -2, "include_unchanged": True}]
+        t2 = t
+        for _ in range(rng.randrange(1, 3)):
+            t2 = mutate_tree(rng, t2, maxlen=5, names=["a", "ab", "a.b", "b", "-", "é", "z", "d"],
+                             mtimes=cvlib.MTIMES + [(1600000000, 1), (1600000001, 123456788), (1600000002, 0)])
+            steps += [{"op": "tree", "tree": t2}, {"op": "diff", "band": -2, "include_unchanged": rng.random() < 0.5},
+                      {"op": "diff", "band": 0, "include_unchanged": False}, bk(o),
+                      {"op": "diff", "band": -2, "include_unchanged": False}]
+        scens.append({"id": sid("C18", "d", i), "props": ["C18"], "mode": "clean", "tags": ["diff"], "steps": steps})
     return scens, mcs
 
 
@@ -754,6 +905,10 @@ NONTRIVIAL = {
     "C11": (lambda s: has_op(s, "apath_table") or len(s["steps"][0].get("tree", [])) >= 4, "the comparator/validity table (all pairs of the exported strings) and distinct walked trees with >= 4 nodes"),
     "C12": (lambda s: has_op(s, "apath_table") or sum(1 for st in s["steps"] if st.get("subtree")) >= 3, "the ancestor table and distinct (tree, settings) cases with >= 3 subtree selections"),
     "C13": (lambda s: has_op(s, "backup"), "distinct histories with at least one backup"),
+    "C15": (lambda s: any(st.get("excl") for st in s["steps"]), "distinct (tree, pattern set) cases"),
+    "C16": (lambda s: any(n["k"] == "Symlink" for st in s["steps"] if st["op"] == "tree" for n in st["tree"]), "distinct trees containing at least one symlink, restored beside watched sentinels"),
+    "C17": (lambda s: sum(1 for st in s["steps"] if st["op"] == "archive_digest") >= 2, "distinct histories replayed at least twice"),
+    "C18": (lambda s: sum(1 for st in s["steps"] if st["op"] == "diff") >= 3, "distinct (tree, mutation) cases with at least three diffs"),
     "C14": (lambda s: sum(1 for st in s["steps"] if st["op"] in ("backup", "sweep")) >= 2, "distinct scenarios with a second backup over existing data"),
 }
 
@@ -820,6 +975,25 @@ MANIFEST_TEXT = {
                 text="The real is_prefix_of on all pairs of the C11 path set against IsAncestorOrSelf; real subtree listings (S over existing "
                      "dirs, files, textual siblings, missing paths) and subtree restores (S over directories), on complete and stitched versions "
                      "with small hunks, compared by TLC with Listing()/RestoreOf restricted to S."),
+    "C15": dict(ref="DESIGN.md 7 C15", note=TRUST + " Whether a path matches a base pattern is a fact computed with the globset crate directly (anchoring per the documented rule); glob semantics themselves are not modelled.",
+                text="MC_Exclude.tla proves, for all bounded trees and ALL match relations, that pruning during the walk, per-entry filtering "
+                     "on read and the documented meaning ('omitted iff it or an ancestor below the root matches') coincide. On the real code, "
+                     "backup(exclude=E), list(exclude=E) and restore(exclude=E) of a full backup, and the source walk, are each compared by TLC "
+                     "with Excluded() evaluated on logged match facts."),
+    "C16": dict(ref="DESIGN.md 7 C16", note=TRUST + " The sandbox runs as root, so an escaping chmod/chown/utimes would succeed and be seen.",
+                text="Trees with symlinks pointing at sentinel files and directories beside the destination (absolute, '..', through another "
+                     "link, dangling), with varied link owners; restores into fresh, absent and pre-populated destinations, with subtree and "
+                     "exclusion selections. A recursive lstat + content digest of everything outside the destination is taken before and after; "
+                     "TLC judges 'outside unchanged' and 'non-empty destination refused and untouched'."),
+    "C17": dict(ref="DESIGN.md 7 C17", note=TRUST + " Byte identity is a harness fact (masking start_time/end_time); the specification contributes the decoded-state comparison and the history set.",
+                text="Each history (backups with varying settings, interrupted backups, deletes, gcs) is replayed into two (thorough: three) "
+                     "fresh archives under different tokio runtime flavours (current_thread, multi_thread with 1, 2, 8 workers); the archive "
+                     "trees are compared byte for byte and the decoded states compared by TLC."),
+    "C18": dict(ref="DESIGN.md 7 C18", note=TRUST,
+                text="Diff.tla defines the set-theoretic difference with the classification of change.rs; MC_Diff proves the lock-step merge "
+                     "equals it (and is path-ordered) for all bounded tree pairs. Real diff() streams (with and without include_unchanged, "
+                     "against the latest and an older version) and the next backup's change callbacks are compared with SetDiff / "
+                     "CallbackExpected by TLC over generated trees and mutation sets."),
     "C13": dict(ref="DESIGN.md 7 C13", note=TRUST,
                 text="doc/format.md is the predicate FormatViol in spec/Format.tla; TLC evaluates it after every mutating storage verb of "
                      "every trace (histories x settings hitting hunk and block boundaries, interrupted backups), on payloads decoded by the "
